@@ -145,7 +145,8 @@ def run(tier, seed):
     finally:
         s.teardown()
         simrt.install(None)
-    ck.cov["evaluations"] = len(cases) + n_gen
+    n_node = node_level(ck, tier, seed)
+    ck.cov["evaluations"] = len(cases) + n_gen + n_node
     ck.cov["distinct_nontrivial"] = len({(c["cls"].__name__, c["hdr"]["flags"], json.dumps(c["hdr"], sort_keys=True)) for c in cases})
     ck.cov["rule"] = "one evaluation = to_answer() of one command class for one header (flag octet, identifiers), or one answer generated by a node/application; distinct by (class, header)"
     ck.cov["classes"] = len(cls)
@@ -154,6 +155,84 @@ def run(tier, seed):
     return ck.finish()
 
 
+# ---------------------------------------------------------------------- answers on the wire, whichever code path built them
+TB_CFG_NAME = "TB"
+
+
+def cfg20(rng):
+    """fault / traffic histories over threading and basic applications; 'slow7' holds a thread slot for longer than the 5 s
+    a request waits for one, so that the application's own DIAMETER_TOO_BUSY answer is reached"""
+    from ..world import peer_cfg, app_cfg
+    kind = rng.choice(["threading", "threading", "basic"])
+    handler = rng.choice(["answer", "raise", "slow", "slow7", "slow7", "alt"] if kind == "threading" else ["answer", "hold", "raise", "alt"])
+    node = {"idle": 30, "dwa": 2, "cer": 3, "cea": 3, "wakeup": rng.choice([1, 2]), "retx": 4, "validate": rng.random() < 0.8}
+    peers = [peer_cfg("p1"), peer_cfg("p2")]
+    apps = [app_cfg("a1", 4, peers=["p1", "p2"], kind=kind, max_threads=rng.choice([1, 1, 2]), handler=handler)]
+    return {"node": node, "peers": peers, "apps": apps}
+
+
+def _job20(arg):
+    from . import c14
+    return c14._fault_job(arg, cfg_fn=cfg20, tag="fault20")
+
+
+def node_level(ck, tier, seed):
+    """Mon_C20 folded over histories of the real node: every answer to a typed application request seen on the wire -
+    the node's own error answers, duplicate rejections, applications' answers, a threading application's TOO_BUSY -
+    carries the local origin and the request's Session-Id and Proxy-Info.  The histories are validated against Node.tla."""
+    from . import nodecommon as nc
+    from .c08_plan import PROFILE as P08
+    from .. import nodetrace as nt
+    from ..common import fan_out
+    from ..world import peer_cfg, app_cfg
+    th = tier == "thorough"
+    nc.CFGS[TB_CFG_NAME] = {"node": dict(nc.NODE_A, idle=30), "peers": [peer_cfg("p1")],
+                            "apps": [app_cfg("a1", 4, peers=["p1"], kind="threading", max_threads=1, handler="slow7")]}
+    M = nt.M
+    req = lambda h, e, **k: M("APP", True, h, e, **dict(dict(app=4, oh="p1.r1", realm="r1"), **k))
+    fixed = []
+    # one slot, held for 7 s: the second request waits 5 s for it and is answered TOO_BUSY by the application itself;
+    # then an unserved realm, a missing AVP, an unknown application, a retransmission of an answered request
+    for tail in ([req(1, 2)] , [req(1, 2), req(2, 3, realm="r9")], [req(1, 2), req(2, 4, miss=True), req(2, 5, app=9)]):
+        acts = [{"a": "start"}, {"a": "connect"}, {"a": "feed", "c": 1, "ms": [M("CE", True, 7, 77, oh="p1.r1", auth=[4])]},
+                {"a": "feed", "c": 1, "ms": [req(1, 1)]}] + [{"a": "feed", "c": 1, "ms": [m]} for m in tail] + [{"a": "tick"}] * 9 + \
+               [{"a": "feed", "c": 1, "ms": [req(1, 1, T=True)]}, {"a": "tick"}]
+        h = nt.replay_acts(nc.CFGS[TB_CFG_NAME], acts)
+        h["cfg"] = {"mc": TB_CFG_NAME}
+        fixed.append(h)
+    busy = sum(1 for h in fixed for st in h["steps"] for e in st["out"] if e["ev"] == "tx" and e["m"]["rc"] == 3004)
+    if not busy:
+        raise tlc.TlcError("vacuity: the TOO_BUSY scenario did not produce a 3004 answer")
+    hs = fan_out(_job20, [(seed * 6151 + i, 14 + (i % 3) * 6) for i in range(600 if th else 96)])
+    rh = nc.random_histories(600 if th else 96, seed + 5, P08)
+    allh = fixed + hs + rh
+    nv, ncf = nc.judge(ck, "C20", allh, "c20_n", conf=True)
+    ck.cov["node_histories"] = len(allh)
+    ck.cov["node_histories_conforming"] = ncf
+    ck.cov["answers_on_the_wire_judged"] = sum(1 for h in allh for st in h["steps"] for e in st["out"]
+                                               if e["ev"] == "tx" and not e["m"]["req"] and e["m"]["code"] == 272)
+    ck.cov["too_busy_answers"] = sum(1 for h in allh for st in h["steps"] for e in st["out"] if e["ev"] == "tx" and e["m"]["rc"] == 3004)
+    return len(allh)
+
+
 def replay(path, seed):
     body = json.load(open(path))
+    rp = body.get("replay") or {}
+    cfg = rp.get("cfg") if isinstance(rp, dict) else None
+    if cfg:
+        from . import nodecommon as nc
+        from .. import nodetrace as nt
+        if "fault20" in cfg:
+            h = _job20((cfg["fault20"]["seed"], cfg["fault20"]["length"]))
+            v = nt.mon_batch(h["params"], [h["steps"]], "c20_replay")[0].get("C20", [])
+            print("replayed %d steps; C20 violations: %s" % (len(h["steps"]), v))
+            if any(x["sig"] == body["sig"] for x in v):
+                print("VIOLATION property=C20 replay=%s" % path)
+                return 1
+            return 0
+        if cfg.get("mc") == TB_CFG_NAME:
+            from ..world import peer_cfg, app_cfg
+            nc.CFGS[TB_CFG_NAME] = {"node": dict(nc.NODE_A, idle=30), "peers": [peer_cfg("p1")],
+                                    "apps": [app_cfg("a1", 4, peers=["p1"], kind="threading", max_threads=1, handler="slow7")]}
+        return nc.replay_file("C20", path)
     return run("quick", body.get("seed", seed))
